@@ -401,6 +401,7 @@ static void w_apply(int opi, int check)
             if (o->b) { memcpy(outbuf[i], inbuf, (size_t)len); r[i] = ctr_encrypt(g_c, &W.obj[i], outbuf[i], outbuf[i], (size_t)len); }
             else { memset(outbuf[i], 0xEE, (size_t)len + 8); r[i] = ctr_encrypt(g_c, &W.obj[i], outbuf[i], inbuf, (size_t)len); }
         }
+        if (check) for (i = 0; i < g_nbe; ++i) { out_digest("ctr-output", outbuf[i], (size_t)len); out_digest("ctr-return", &r[i], sizeof(int)); }
         if (W.phase == PH_LIVE && W.keyed) {
             int defd = live_streams_defined();
             if (defd) model_stream(inbuf, expbuf, len, check);
@@ -497,6 +498,7 @@ static size_t w_canon(uint8_t *buf, size_t cap)
 {
     size_t o = 0; int i;
     for (i = 0; i < g_nbe; ++i) o += ctr_image(g_c, &W.obj[i], buf + o, cap - o);
+    out_digest("ctr-context-images", buf, o);
     if (o + 256 > cap) engine_error("canon overflow");
     /* model state and budgets */
     memcpy(buf + o, &W.phase, (size_t)((uint8_t *)&W.pos - (uint8_t *)&W.phase)); o += (size_t)((uint8_t *)&W.pos - (uint8_t *)&W.phase);
